@@ -282,6 +282,17 @@ def handler : Handler := fun op j =>
     let a ← aArg? a
     let g ← guardOf? cls w a (yn != 0)
     some (ok (jObj [("guard", Json.str (guardStr g))]))
+  | "accepts" => do
+    -- argument checks of `NuclearNorm.prox` (`ndim`) and `L21Norm.prox` (`block`, `axis_none`): ok / ValueError
+    let kind ← fStr? j "kind"
+    match kind with
+    | "nuclear" => do
+      let nd ← fNat? j "ndim"
+      some (if nuclearAccepts nd then ok (jObj [("accepted", jB true)]) else err "value")
+    | "l21" => do
+      let b ← fBool? j "block"; let a ← fBool? j "axis_none"
+      some (if l21Accepts b a then ok (jObj [("accepted", jB true)]) else err "value")
+    | _ => none
   | "cubic_root" => do
     -- the model of `loss._dep_cubic_root` on arrays p, q
     let p ← fFloats? j "p"; let q ← fFloats? j "q"
